@@ -299,6 +299,11 @@ def r4_offsets(ck, F, R="C02-R4"):
     rs = F.body(A("bw_reset"))
     tr = [s for s, c, t in calls(rs, "Vec::<T, A>::truncate") if is_self_field(rs.arg_exprs(s)[0], "index_offsets")]
     ck.ob(R, "reset-keeps-first-slot", len(tr) == 1 and const_val(rs.arg_exprs(tr[0])[1]) == 1, "reset truncates the table to its first slot (0)", rs)
+    # ... and restarts the interval counter: a counter carried over from the previous block pushes a second slot
+    # before the first entry of the next one (table [0, 0, ..]: the backward step inside the block loops on it)
+    zc = [const_val(rs._expr_of_def((site, "assign", st["rv"]))) for site, st in rs.sites()
+          if site.i is not None and st["s"] == "assign" and st["pl"]["p"] and isinstance(st["pl"]["p"][-1], dict) and st["pl"]["p"][-1].get("name") == "index_key_counter"]
+    ck.ob(R, "reset-restarts-interval-counter", zc == [0], f"reset sets index_key_counter to 0 (stores: {zc})", rs)
     # reader side: table rebuilt in order from the bytes before the count
     rf = F.body(A("block_read_from"))
     ext = [s for s, c, t in calls(rf, "Extend<T>>::extend") if is_self_field(rf.arg_exprs(s)[0], "index_offsets")]
